@@ -480,9 +480,23 @@ func (a *natsWatcherAdapter) Updates() <-chan Entry {
 	a.once.Do(func() {
 		a.updates = make(chan Entry, 1)
 		a.done = make(chan struct{})
+		src := a.watcher.Updates()
 		go func() {
 			defer close(a.updates)
-			for natsEntry := range a.watcher.Updates() {
+			for {
+				var natsEntry nats.KeyValueEntry
+				var ok bool
+				// Stop must end this goroutine also while it waits for the next
+				// notification: the underlying watcher's Stop can fail (connection
+				// already closed) and then never closes its channel.
+				select {
+				case natsEntry, ok = <-src:
+					if !ok {
+						return
+					}
+				case <-a.done:
+					return
+				}
 				var entry Entry
 				if natsEntry != nil {
 					entry = &natsEntryAdapter{entry: natsEntry}
